@@ -134,7 +134,19 @@ def case_b(case):
     ir = IR(P.layout)
     I = new_interp(P)
     res = {"paths": 0, "violations": [], "case": list(case)}
-    cfg = {"plain": {}, "no_pointer_slice": {"no_pointer_slice": True}, "prefix": {"prefix": "OP"}}[cfgname]
+    cfg = {"plain": {}, "no_pointer_slice": {"no_pointer_slice": True}, "prefix": {"prefix": "OP"}, "override": {}, "override_readonly": {}}[cfgname]
+    overridden = cfgname.startswith("override")
+
+    def decorators():
+        if not overridden:
+            return None
+        L = P.layout
+        lv = {"typescript": "TypeScript", "kotlin": "Kotlin", "swift": "Swift", "scala": "Scala", "go": "Go", "python": "Python"}[lang]
+        key = EnumV("language::SupportedLanguage", L.enums["SupportedLanguage"].index(lv), [])
+        decs = [[L.make_adt("rust_types::FieldDecorator::NameValue", [S("type"), S("Ovr")], None), UNIT]]
+        if cfgname == "override_readonly":
+            decs.insert(0, [L.make_adt("rust_types::FieldDecorator::Word", [S("readonly")], None), UNIT])
+        return RMap("HashMap", [[key, RMap("BTreeSet", decs)]])
 
     def mk(I):
         inner = base_types(ir)[base]
@@ -151,9 +163,9 @@ def case_b(case):
         lg = bharness.make_lang(I, lang, cfg)
         generics = ["T"] if base == "generic" else []
         if container == "struct":
-            pd = ir.parsed_data(structs=[ir.struct("S", [ir.field("keep", ir.special("Bool")), ir.field("f", ty, has_default=hd)], generics=generics)])
+            pd = ir.parsed_data(structs=[ir.struct("S", [ir.field("keep", ir.special("Bool")), ir.field("f", ty, has_default=hd, decorators=decorators())], generics=generics)])
         elif container == "struct_variant":
-            pd = ir.parsed_data(enums=[ir.enum_alg("E", [ir.v_unit("U"), ir.v_anon("V", [ir.field("keep", ir.special("Bool")), ir.field("f", ty, has_default=hd)])], generics=generics)])
+            pd = ir.parsed_data(enums=[ir.enum_alg("E", [ir.v_unit("U"), ir.v_anon("V", [ir.field("keep", ir.special("Bool")), ir.field("f", ty, has_default=hd, decorators=decorators())])], generics=generics)])
         elif container == "newtype_variant":
             pd = ir.parsed_data(enums=[ir.enum_alg("E", [ir.v_unit("U"), ir.v_tuple("V", ty)], generics=generics)])
         else:
@@ -216,7 +228,10 @@ def case_b(case):
             exp_t = want_type
             if lang == "typescript" and shape == "double_option":
                 exp_t = pystr(bharness.format_type(I, lang, bharness.make_lang(I, lang, cfg), mk(I)[0], ["T"] if base == "generic" else []).fields[0])
-            if tt != exp_t and not (lang == "go" and tt == exp_t.lstrip("*")):
+            if overridden:
+                if "Ovr" not in tt:
+                    problems.append("type override `Ovr` not used: %r" % tt)
+            elif tt != exp_t and not (lang == "go" and tt == exp_t.lstrip("*")):
                 problems.append("type text %r, format_type gives %r" % (tt, exp_t))
             if problems:
                 res["violations"].append({"kind": "field", "has_default": hdv, "problems": problems, "line": f.raw})
@@ -262,6 +277,8 @@ def render_b(case, hd):
         t = "Option<%s>" % t
     g = "<T>" if base == "generic" else ""
     d = "#[serde(default)] " if hd else ""
+    if cfgname.startswith("override"):
+        d += '#[typeshare(%s(%stype = "Ovr"))] ' % (lang, "readonly, " if cfgname == "override_readonly" else "")
     other = "#[typeshare]\npub struct Other { pub x: u32 }\n"
     if container == "struct":
         return other + "#[typeshare]\npub struct S%s { pub keep: bool, %spub f: %s }\n" % (g, d, t)
@@ -294,9 +311,15 @@ def run(rep, tier, only=None):
                     b_cases.append((lang, "struct", base, shape, "no_pointer_slice"))
                 if lang in ("swift", "kotlin"):
                     b_cases.append((lang, "struct", "user", shape, "prefix"))
+        if lang != "python":
+            for shape in SHAPES:
+                for cont in ("struct", "struct_variant"):
+                    b_cases.append((lang, cont, "string", shape, "override"))
+            if lang == "typescript":
+                b_cases += [(lang, "struct", "string", shape, "override_readonly") for shape in SHAPES]
     rep.bounds = {"parser": "the word `default` (7 symbolic chars) and the attribute name (5 symbolic chars) in %d attribute arrangements x struct / struct variant x %d type shapes" % (len(ARRANGEMENTS), len(TYPES_P)),
-                  "back ends": "6 languages x {struct, struct variant, newtype variant, alias} x 8 base types x {T, Option<T>, Option<Option<T>>} x symbolic has_default; plus Go no_pointer_slice and Swift/Kotlin prefix"}
-    rep.outside = ["serde(default = \"path\") (documented as not making the field optional)", "decorator-driven type overrides"]
+                  "back ends": "6 languages x {struct, struct variant, newtype variant, alias} x 8 base types x {T, Option<T>, Option<Option<T>>} x symbolic has_default; plus Go no_pointer_slice, Swift/Kotlin prefix and per-language type overrides on the field"}
+    rep.outside = ["serde(default = \"path\") (documented as not making the field optional)", "the text of a decorator-driven type override (only the optional marker of an overridden field is checked)"]
     rep.assumptions = ["the translated type of the unwrapped member is taken from the same back end's format_type (consistency oracle); the marker rule is independent"]
     reported = set()
     if not only or "p" in only:
@@ -349,14 +372,14 @@ def run(rep, tier, only=None):
                 continue
             for v in r["violations"][:2]:
                 sig = {"half": "backend", "lang": case[0], "container": case[1], "kind": v["kind"], "shape": case[3],
-                       "has_default": v.get("has_default"), "problem": (v.get("problems") or [""])[0].split(",")[0][:40]}
+                       "has_default": v.get("has_default"), "problem": (v.get("problems") or [""])[0].split(",")[0][:40], "config": case[4]}
                 key = (case[0], case[1], v["kind"], case[3], v.get("has_default"), sig["problem"])
                 if key in reported:
                     continue
                 # native replay through the real library on the rendered source
                 src = render_b(case, bool(v.get("has_default")))
                 cfg = dict(bharness.DEFAULT_CFG.get(case[0], {}))
-                cfg.update({"plain": {}, "no_pointer_slice": {"no_pointer_slice": True}, "prefix": {"prefix": "OP"}}[case[4]])
+                cfg.update({"plain": {}, "no_pointer_slice": {"no_pointer_slice": True}, "prefix": {"prefix": "OP"}}.get(case[4], {}))
                 real = nat.ask({"op": "generate", "lang": case[0], "files": [{"source": src}], "config": cfg})
                 rep.validated += 1
                 line = v.get("line")
